@@ -17,9 +17,11 @@
   meets the hypotheses of the neutral stage's lemma") explicit, and the unconditional form, where
   `WeakInv ds` is supplied by `C01_weakInv` (`Lemmas/C01WeakInv*`).
 
-  Hypotheses: the text is well formed (`Text.WF`: every `&str`, every `&[u16]`); a character of class FSI
-  is as wide as U+2068 (`FSIWidth`, C02); a forced paragraph level is 0 or 1.  Nothing is asked of the
-  data source's bracket characters any more: the former hypothesis `BracketClassesOK` ("no bracket
+  Hypotheses: the text is well formed (`Text.WF`: every `&str`, every `&[u16]`); a forced paragraph level
+  is 0 or 1.  Nothing is asked of the width of FSI-class characters any more (the former hypothesis
+  `FSIWidth`, "a character of class FSI is as wide as U+2068", is gone since the repair of finding D10: X5c
+  rewrites the code units of the character that sits at the FSI's position).  Nothing is asked of the
+  data source's bracket characters any more either: the former hypothesis `BracketClassesOK` ("no bracket
   character has class NSM, ES, CS or ET"; every real bracket has class ON: `hardcoded_bracketClassesOK`)
   was needed only while the crate's N0 sweep over the units following a changed bracket tested the current
   type of a unit (`== BN`) and wrote removed units — for a data source violating it the crate and UAX #9
@@ -32,12 +34,11 @@ import UBidi.Lemmas.C01Compose
 import UBidi.Props.C10
 import UBidi.Props.C15
 import UBidi.Props.C18
-import UBidi.Lemmas.C09Hardcoded
 namespace UBidi.Props.C01Levels
 open UBidi UBidi.BidiClass UBidi.Expand UBidi.Lemmas.C01Compose
 open UBidi.Lemmas.C01Seq (UnitText NoInnerB unitText unitText_unit)
 open UBidi.Lemmas.C01Pure (pureClass)
-open UBidi.Props.C02 (raw FSIWidth segsIn)
+open UBidi.Props.C02 (raw segsIn)
 
 /-! ### the data source -/
 
@@ -135,7 +136,7 @@ theorem C01_chars (ds : DataSource) (t : Text) (hwf : t.WF) (pl : Nat)
     equal to — the Spec's levels of the characters with their reported classes, which are X5c of the
     raw classes, at the paragraph level of P2/P3. -/
 theorem C01_paragraphBidiInfo_of_weakInv (ds : DataSource) (hweak : WeakInv ds)
-    (t : Text) (hwf : t.WF) (hfsi : FSIWidth ds t) (d : Option Nat) (hd : ∀ l, d = some l → l ≤ 1)
+    (t : Text) (hwf : t.WF) (d : Option Nat) (hd : ∀ l, d = some l → l ≤ 1)
     (hB : ∀ c ∈ (raw ds t).dropLast, c ≠ B) :
     let q := paragraphBidiInfo ds t d
     q.err = none ∧
@@ -143,13 +144,13 @@ theorem C01_paragraphBidiInfo_of_weakInv (ds : DataSource) (hweak : WeakInv ds)
     contract t q.levels 0 = Spec.paragraphLevels q.paraLevel (charsOf ds t q.classes) ∧
     (charsOf ds t q.classes).map (·.cls) = Spec.resolveFSI (raw ds t) ∧
     q.paraLevel = Spec.paraLevel d (raw ds t) := by
-  obtain ⟨h1, h2, h3, h4⟩ := single_para_levels ds hweak t hwf hfsi d hd hB
-  have herr := C02.C02_no_panic ds t d hwf hfsi false
+  obtain ⟨h1, h2, h3, h4⟩ := single_para_levels ds hweak t hwf d hd hB
+  have herr := C02.C02_no_panic ds t d hwf false
   simp only [paragraphBidiInfo, h1, herr]
   exact ⟨rfl, trivial, contract_expand t hwf _ 0 h2, h3, h4⟩
 
 theorem C01_paragraphBidiInfo (ds : DataSource)
-    (t : Text) (hwf : t.WF) (hfsi : FSIWidth ds t) (d : Option Nat) (hd : ∀ l, d = some l → l ≤ 1)
+    (t : Text) (hwf : t.WF) (d : Option Nat) (hd : ∀ l, d = some l → l ≤ 1)
     (hB : ∀ c ∈ (raw ds t).dropLast, c ≠ B) :
     let q := paragraphBidiInfo ds t d
     q.err = none ∧
@@ -157,7 +158,7 @@ theorem C01_paragraphBidiInfo (ds : DataSource)
     contract t q.levels 0 = Spec.paragraphLevels q.paraLevel (charsOf ds t q.classes) ∧
     (charsOf ds t q.classes).map (·.cls) = Spec.resolveFSI (raw ds t) ∧
     q.paraLevel = Spec.paraLevel d (raw ds t) :=
-  C01_paragraphBidiInfo_of_weakInv ds (weakInv ds) t hwf hfsi d hd hB
+  C01_paragraphBidiInfo_of_weakInv ds (weakInv ds) t hwf d hd hB
 
 /-! ### layer 4: `BidiInfo::new` -/
 
@@ -178,13 +179,6 @@ theorem subrange_read {α β} (t : Text) (a b : Nat) (xs : List α) (d : α) (f 
   simp only [Function.comp]
   rw [slice_getD xs a b s.start d hs.2.1 hs.2.2]
 
-theorem subrange_fsiWidth (ds : DataSource) (t : Text) (a b : Nat) (h : FSIWidth ds t) :
-    FSIWidth ds (t.subrange a b) := by
-  intro s hs hc
-  simp only [Text.subrange, List.mem_map, List.mem_filter] at hs
-  obtain ⟨s0, ⟨hs0, _⟩, rfl⟩ := hs
-  exact h s0 hs0 hc
-
 /-- the characters of paragraph `p` as the Spec sees them: reported class, bracket property -/
 def paraChars (ds : DataSource) (t : Text) (classes : Classes) (p : ParaInfo) : List Spec.Ch :=
   (segsIn t p).map (fun s => { cls := classes.getD s.start ON, brk := ds.brk s.cp })
@@ -194,7 +188,7 @@ def paraChars (ds : DataSource) (t : Text) (classes : Classes) (p : ParaInfo) : 
     characters with their reported classes; the per-unit levels of `p` are their expansion; the reported
     classes are X5c of the raw classes and `p.level` is P2/P3's level of them (C02). -/
 theorem C01_bidiInfo_of_weakInv (ds : DataSource) (hweak : WeakInv ds)
-    (t : Text) (hwf : t.WF) (hfsi : FSIWidth ds t) (d : Option Nat) (hd : ∀ l, d = some l → l ≤ 1) :
+    (t : Text) (hwf : t.WF) (d : Option Nat) (hd : ∀ l, d = some l → l ≤ 1) :
     let b := bidiInfo ds t d
     b.err = none ∧
     ∀ p ∈ b.paras,
@@ -229,7 +223,7 @@ theorem C01_bidiInfo_of_weakInv (ds : DataSource) (hweak : WeakInv ds)
       obtain ⟨s, hs, rfl⟩ := hc
       exact g0 s hs
     obtain ⟨e1, e2, e3, e4, e5⟩ := C01_paragraphBidiInfo_of_weakInv ds hweak (t.subrange p.start p.stop) hw
-      (subrange_fsiWidth ds t p.start p.stop hfsi) d hd hB
+      d hd hB
     have hchars : charsOf ds (t.subrange p.start p.stop) (slice (bidiInfo ds t d).classes p.start p.stop) =
         paraChars ds t (bidiInfo ds t d).classes p :=
       subrange_read t p.start p.stop (bidiInfo ds t d).classes ON
@@ -245,7 +239,7 @@ theorem C01_bidiInfo_of_weakInv (ds : DataSource) (hweak : WeakInv ds)
   exact ⟨(C10.C10_slice_err ds t hwf d).2 (fun p hp => (key p hp).1), fun p hp => (key p hp).2⟩
 
 theorem C01_bidiInfo (ds : DataSource)
-    (t : Text) (hwf : t.WF) (hfsi : FSIWidth ds t) (d : Option Nat) (hd : ∀ l, d = some l → l ≤ 1) :
+    (t : Text) (hwf : t.WF) (d : Option Nat) (hd : ∀ l, d = some l → l ≤ 1) :
     let b := bidiInfo ds t d
     b.err = none ∧
     ∀ p ∈ b.paras,
@@ -256,7 +250,7 @@ theorem C01_bidiInfo (ds : DataSource)
       (paraChars ds t b.classes p).map (·.cls) =
         Spec.resolveFSI ((segsIn t p).map (fun s => ds.cls s.cp)) ∧
       p.level = Spec.paraLevel d ((segsIn t p).map (fun s => ds.cls s.cp)) :=
-  C01_bidiInfo_of_weakInv ds (weakInv ds) t hwf hfsi d hd
+  C01_bidiInfo_of_weakInv ds (weakInv ds) t hwf d hd
 
 /-! ### the built-in Unicode data, `&str` and `&[u16]` -/
 
@@ -273,8 +267,7 @@ theorem C01_hardcoded_str (cs : List Nat) (d : Option Nat) (hd : ∀ l, d = some
       (paraChars hardcoded t b.classes p).map (·.cls) =
         Spec.resolveFSI ((segsIn t p).map (fun s => hardcoded.cls s.cp)) ∧
       p.level = Spec.paraLevel d ((segsIn t p).map (fun s => hardcoded.cls s.cp)) :=
-  C01_bidiInfo hardcoded _ (C01.Base.ofScalars_WF cs)
-    (C09.hardcoded_FSIWidth _ (C01.Base.ofScalars_WF cs)) d hd
+  C01_bidiInfo hardcoded _ (C01.Base.ofScalars_WF cs) d hd
 
 /-- C01 for the crate's default data on a `&[u16]` (any code units, lossy decoding as in the crate) -/
 theorem C01_hardcoded_utf16 (u : List Nat) (h16 : ∀ x ∈ u, x < 65536) (d : Option Nat)
@@ -290,8 +283,7 @@ theorem C01_hardcoded_utf16 (u : List Nat) (h16 : ∀ x ∈ u, x < 65536) (d : O
       (paraChars hardcoded t b.classes p).map (·.cls) =
         Spec.resolveFSI ((segsIn t p).map (fun s => hardcoded.cls s.cp)) ∧
       p.level = Spec.paraLevel d ((segsIn t p).map (fun s => hardcoded.cls s.cp)) :=
-  C01_bidiInfo hardcoded _ (C18.C18_wf u h16)
-    (C09.hardcoded_FSIWidth _ (C18.C18_wf u h16)) d hd
+  C01_bidiInfo hardcoded _ (C18.C18_wf u h16) d hd
 
 /-- `ParagraphBidiInfo::new` with the default data on a one-paragraph `&str` -/
 theorem C01_hardcoded_str_single (cs : List Nat) (d : Option Nat) (hd : ∀ l, d = some l → l ≤ 1)
@@ -303,8 +295,7 @@ theorem C01_hardcoded_str_single (cs : List Nat) (d : Option Nat) (hd : ∀ l, d
     contract t q.levels 0 = Spec.paragraphLevels q.paraLevel (charsOf hardcoded t q.classes) ∧
     (charsOf hardcoded t q.classes).map (·.cls) = Spec.resolveFSI (raw hardcoded t) ∧
     q.paraLevel = Spec.paraLevel d (raw hardcoded t) :=
-  C01_paragraphBidiInfo hardcoded _ (C01.Base.ofScalars_WF cs)
-    (C09.hardcoded_FSIWidth _ (C01.Base.ofScalars_WF cs)) d hd hB
+  C01_paragraphBidiInfo hardcoded _ (C01.Base.ofScalars_WF cs) d hd hB
 
 /-- `ParagraphBidiInfo::new` with the default data on a one-paragraph `&[u16]` -/
 theorem C01_hardcoded_utf16_single (u : List Nat) (h16 : ∀ x ∈ u, x < 65536) (d : Option Nat)
@@ -317,8 +308,7 @@ theorem C01_hardcoded_utf16_single (u : List Nat) (h16 : ∀ x ∈ u, x < 65536)
     contract t q.levels 0 = Spec.paragraphLevels q.paraLevel (charsOf hardcoded t q.classes) ∧
     (charsOf hardcoded t q.classes).map (·.cls) = Spec.resolveFSI (raw hardcoded t) ∧
     q.paraLevel = Spec.paraLevel d (raw hardcoded t) :=
-  C01_paragraphBidiInfo hardcoded _ (C18.C18_wf u h16)
-    (C09.hardcoded_FSIWidth _ (C18.C18_wf u h16)) d hd hB
+  C01_paragraphBidiInfo hardcoded _ (C18.C18_wf u h16) d hd hB
 
 /-! ### non-vacuity and tests
 
@@ -353,10 +343,10 @@ example : Spec.paragraphLevels 0 d1Chars = [0, 1, 1, 2, 1, 1, 1, 1] := by decide
 
 /-- non-vacuity of `C01_bidiInfo` / `C01_hardcoded_str`: every hypothesis holds for every `&str` and the
     built-in data; a forced level 0 (or 1, or none) meets `hd` -/
-example (cs : List Nat) : (Text.ofScalars cs).WF ∧ FSIWidth hardcoded (Text.ofScalars cs) ∧
+example (cs : List Nat) : (Text.ofScalars cs).WF ∧
     (∀ l, some 0 = some l → l ≤ 1) ∧ (∀ l, some 1 = some l → l ≤ 1) ∧
     (∀ l, (none : Option Nat) = some l → l ≤ 1) :=
-  ⟨C01.Base.ofScalars_WF cs, C09.hardcoded_FSIWidth _ (C01.Base.ofScalars_WF cs),
+  ⟨C01.Base.ofScalars_WF cs,
     by intro l h; cases h; omega, by intro l h; cases h; omega, by intro l h; cases h⟩
 
 /-- test: the D1 witness as a `&str` (14 bytes), forced LTR, through `BidiInfo::new` -/
